@@ -1142,9 +1142,13 @@ static void doOp(const std::vector<std::string>& t, Ctx& x, Line& L)
          m->getObjReal(mv);
       }
 
-      // what the C++ getter delivers, element by element, as far as the caller asked and the vector reaches
+      // what the C++ getter delivers: the LP's numCols values (beyond them a vector holds nothing that belongs to the LP)
       int k = mv.dim() < (int) dim ? mv.dim() : (int) dim;
-      L.xret = vecD(mv.get_const_ptr(), k) + (mv.dim() < (int) dim ? ",beyond-vector:" + std::to_string(mv.dim()) : "");
+
+      if(m->numCols() < k)
+         k = m->numCols();
+
+      L.xret = vecD(mv.get_const_ptr(), k) + (k < (int) dim ? ",beyond-vector:" + std::to_string(k) : "");
       L.cret = outD(out);
       L.wr = "0:" + writtenSet(out.n, [&](size_t i)
       {
@@ -1434,7 +1438,7 @@ static void doOp(const std::vector<std::string>& t, Ctx& x, Line& L)
    }
    else if(op == "changeVarBoundsRational")
    {
-      if(cs->_rationalLP == nullptr)
+      if(cs->intParam(SP::SYNCMODE) == SP::SYNCMODE_ONLYREAL || cs->_rationalLP == nullptr)
       {
          // SYNCMODE_ONLYREAL: the C++ member returns at once, no index is used
          long b[4] = {atol(t[2].c_str()), atol(t[3].c_str()), atol(t[4].c_str()), atol(t[5].c_str())};
@@ -1740,6 +1744,19 @@ static int cmdRun(const char* casefile, const char* dir)
       g_asanReports = 0;
       g_asanWhat.clear();
       std::string exc;
+
+      // In SYNCMODE_AUTO the two LPs must have the same dimensions; when the library has let them drift apart (C++ side),
+      // every further modifier would index one of them out of range: the case ends here.
+      if(cs->_rationalLP != nullptr && cs->intParam(SP::SYNCMODE) == SP::SYNCMODE_AUTO
+            && (cs->numRows() != cs->numRowsRational() || cs->numCols() != cs->numColsRational()))
+      {
+         printf("%d %s args=- pre=%s c=- x=- eq=- obs=- wr=- state=- skip=out-of-step\n", j, t[0].c_str(), pre);
+         fflush(stdout);
+         delete Lp;
+         dead = true;
+         continue;
+      }
+
       int sig = sigsetjmp(g_jb, 1);
 
       if(sig == 0)
